@@ -116,14 +116,11 @@ Proof.
   destruct o; simpl; apply IH.
 Qed.
 
-Definition NoErr (c : config) : Prop := forall t, t_err (c_thr c t) = false.
-
 (* one step of any thread leaves every G unchanged *)
-Lemma step_G c t : Inv4 c -> NoErr c ->
-  (forall u, G u (step c t) = G u c) /\ NoErr (step c t).
+Lemma step_G c t : Inv4 c -> forall u, G u (step c t) = G u c.
 Proof.
-  intros (Hops & _) Hne. unfold step.
-  destruct (step_opt c t) as [c'|] eqn:Hs; [|split; [reflexivity|exact Hne]].
+  intros (Hops & _). unfold step.
+  destruct (step_opt c t) as [c'|] eqn:Hs; [|reflexivity].
   unfold step_opt in Hs. pose proof (Hops t) as Ht.
   destruct (t_ops (c_thr c t)) as [|o r] eqn:Hop; [discriminate|].
   apply Forall_cons_iff in Ht as [Ho Hr].
@@ -131,17 +128,12 @@ Proof.
      new operations have the same pending accesses *)
   assert (Hsame : forall th' c'',
             c_thr c'' = upd (c_thr c) t th' -> c_store c'' = c_store c ->
-            t_outs th' = t_outs (c_thr c t) -> t_err th' = false ->
+            t_outs th' = t_outs (c_thr c t) ->
             pending t (t_ops th') = pending t (o :: r) ->
-            (forall u, G u c'' = G u c) /\ NoErr c'').
-  { intros th' c'' Hthr Hst Hout Herr Hp. split.
-    - intros u. unfold G. rewrite Hthr, Hst. destruct (N.eq_dec u t) as [->|Hn].
-      + rewrite upd_same, Hop, Hp, Hout. reflexivity.
-      + rewrite upd_other by exact Hn. reflexivity.
-    - intros u. rewrite Hthr. destruct (N.eq_dec u t) as [->|Hn].
-      + rewrite upd_same. exact Herr.
-      + rewrite upd_other by exact Hn. apply Hne. }
-  pose proof (Hne t) as Het.
+            forall u, G u c'' = G u c).
+  { intros th' c'' Hthr Hst Hout Hp u. unfold G. rewrite Hthr, Hst. destruct (N.eq_dec u t) as [->|Hn].
+    - rewrite upd_same, Hop, Hp, Hout. reflexivity.
+    - rewrite upd_other by exact Hn. reflexivity. }
   destruct o; simpl in Ho.
   - destruct (c_w c); [discriminate|]. destruct (c_r c); [|discriminate]. inv_some.
     eapply Hsame; simpl; eauto.
@@ -155,41 +147,30 @@ Proof.
     destruct (compile_self_contained t p (t_snap (c_thr c t)) Ho) as (g' & fr & Hc).
     rewrite Hc in Hs. inv_some.
     assert (Hpl : Forall plain_op (own_xs t p)) by (eapply compile_plain; eauto).
-    eapply Hsame; [reflexivity|reflexivity|reflexivity|exact Het|].
+    eapply Hsame; [reflexivity|reflexivity|reflexivity|].
     change (pending t (own_xs t p) = filter is_acc (own_xs t p)). apply pending_plain. exact Hpl.
   - inv_some. eapply Hsame; simpl; eauto.
   - (* OCheck *)
-    destruct (compile_self_contained t p (t_snap (c_thr c t)) Ho) as (g' & fr & Hc).
-    rewrite Hc in Hs. inv_some. eapply Hsame; simpl; eauto.
+    destruct (compile t 0 (t_snap (c_thr c t)) p); inv_some; eapply Hsame; simpl; eauto.
   - inv_some. eapply Hsame; simpl; eauto.
   - (* OSet *)
-    inv_some. split.
-    + intros u. unfold G. simpl. destruct (N.eq_dec u (fst s)) as [->|Hn].
-      * rewrite upd_same, Hop. simpl. rewrite N.eqb_refl. reflexivity.
-      * rewrite upd_other by exact Hn.
-        destruct (fst s =? u) eqn:E; [apply N.eqb_eq in E; congruence|reflexivity].
-    + intros u. simpl. destruct (N.eq_dec u (fst s)) as [->|Hn].
-      * rewrite upd_same. exact Het.
-      * rewrite upd_other by exact Hn. apply Hne.
+    inv_some. intros u. unfold G. simpl. destruct (N.eq_dec u (fst s)) as [->|Hn].
+    + rewrite upd_same, Hop. simpl. rewrite N.eqb_refl. reflexivity.
+    + rewrite upd_other by exact Hn.
+      destruct (fst s =? u) eqn:E; [apply N.eqb_eq in E; congruence|reflexivity].
   - (* OGet *)
-    inv_some. split.
-    + intros u. unfold G. simpl. destruct (N.eq_dec u (fst s)) as [->|Hn].
-      * rewrite upd_same, Hop. simpl. rewrite store_get_mine. reflexivity.
-      * rewrite upd_other by exact Hn. reflexivity.
-    + intros u. simpl. destruct (N.eq_dec u (fst s)) as [->|Hn].
-      * rewrite upd_same. exact Het.
-      * rewrite upd_other by exact Hn. apply Hne.
+    inv_some. intros u. unfold G. simpl. destruct (N.eq_dec u (fst s)) as [->|Hn].
+    + rewrite upd_same, Hop. simpl. rewrite store_get_mine. reflexivity.
+    + rewrite upd_other by exact Hn. reflexivity.
   - destruct (memN m (c_mods c)); inv_some; eapply Hsame; simpl; eauto.
+  - inv_some. eapply Hsame; simpl; eauto.
   - inv_some. eapply Hsame; simpl; eauto.
 Qed.
 
-Lemma run_G sched : forall c, Inv4 c -> NoErr c ->
-  (forall u, G u (run sched c) = G u c) /\ NoErr (run sched c).
+Lemma run_G sched : forall c, Inv4 c -> forall u, G u (run sched c) = G u c.
 Proof.
-  induction sched as [|t r IH]; intros c H4 Hne; simpl; [split; [reflexivity|exact Hne]|].
-  destruct (step_G c t H4 Hne) as [Hg Hne'].
-  destruct (IH (step c t) (step_Inv4 c t H4) Hne') as [Hg' Hne''].
-  split; [|exact Hne'']. intros u. rewrite Hg'. apply Hg.
+  induction sched as [|t r IH]; intros c H4 u; simpl; [reflexivity|].
+  rewrite (IH (step c t) (step_Inv4 c t H4)). apply step_G. exact H4.
 Qed.
 
 (* ------------------------------------------------------------------ *)
@@ -227,6 +208,280 @@ Proof.
 Qed.
 
 (* ------------------------------------------------------------------ *)
+(* 3b. a Check linearizes at its snapshot: what it compiled against is the
+   namespace produced by the evaluations that precede it in the
+   linearization order *)
+
+Definition check_prog (js : list job) (t : N) : option (list stmt) :=
+  match nth_error js (N.to_nat t) with Some (JCheck p) => Some p | _ => None end.
+
+Fixpoint before (t : N) (l : list N) : list N :=
+  match l with [] => [] | x :: r => if x =? t then [] else x :: before t r end.
+
+Lemma before_app_in t l x : In t l -> before t (l ++ x) = before t l.
+Proof.
+  induction l as [|y r IH]; simpl; [intros []|]. intros H.
+  destruct (y =? t) eqn:E; [reflexivity|]. f_equal. apply IH.
+  destruct H as [H|H]; [subst; rewrite N.eqb_refl in E; discriminate|exact H].
+Qed.
+
+Lemma before_app_notin t l : ~ In t l -> before t (l ++ [t]) = l.
+Proof.
+  induction l as [|y r IH]; simpl; intros H; [rewrite N.eqb_refl; reflexivity|].
+  destruct (y =? t) eqn:E; [apply N.eqb_eq in E; subst; exfalso; apply H; left; reflexivity|].
+  f_equal. apply IH. intros Hin. apply H. right; exact Hin.
+Qed.
+
+Definition is_some {A} (o : option A) : bool := match o with Some _ => true | None => false end.
+Definition is_none {A} (o : option A) : bool := match o with Some _ => false | None => true end.
+
+Lemma ns_after_filter P l : forall g,
+  ns_after P (filter (fun t => is_some (P t)) l) g = ns_after P l g.
+Proof.
+  unfold ns_after. induction l as [|x r IH]; intros g; simpl; [reflexivity|].
+  destruct (P x) eqn:E; simpl; [rewrite E|]; apply IH.
+Qed.
+
+Lemma filter_rev_N (f : N -> bool) l : filter f (rev l) = rev (filter f l).
+Proof.
+  induction l as [|x r IH]; simpl; [reflexivity|].
+  rewrite filter_app, IH. simpl. destruct (f x); simpl; [reflexivity|apply app_nil_r].
+Qed.
+
+Definition nocheck (o : op) : Prop := match o with OCheck _ | ORdGlobalC => False | _ => True end.
+Definition prelock (o : op) : Prop := match o with OLockR | ORdBuiltin => True | _ => False end.
+Definition postop (o : op) : Prop := match o with OUnlockR | ORdModKeys => True | _ => False end.
+
+Lemma plain_nocheck xs : Forall plain_op xs -> Forall nocheck xs.
+Proof. intros H. eapply Forall_impl; [|exact H]. intros o Ho. destruct o; simpl in *; auto. Qed.
+
+(* what a step does to the linearization order *)
+Lemma step_lin c t c' :
+  step_opt c t = Some c' ->
+  exists o r, t_ops (c_thr c t) = o :: r
+    /\ c_lin c' = (match o with OWrGlobal _ _ | ORdGlobalC => t :: c_lin c | _ => c_lin c end)
+    /\ (forall u, u <> t -> c_thr c' u = c_thr c u).
+Proof.
+  unfold step_opt. destruct (t_ops (c_thr c t)) as [|o r] eqn:Hops; [discriminate|].
+  intros Hs. exists o, r. split; [reflexivity|].
+  destruct o;
+    repeat match type of Hs with
+           | context [match ?x with _ => _ end] => destruct x eqn:?; try discriminate
+           end;
+    inv_some; simpl; (split; [reflexivity|intros; apply upd_other; assumption]).
+Qed.
+
+Section Checks.
+Variable P Q : N -> option (list stmt).
+Variable g0 : ns.
+Hypothesis PQ : forall t, Q t <> None -> P t = None.
+
+Definition snap_ok (c : config) (t : N) : Prop :=
+  In t (c_lin c) /\ t_snap (c_thr c t) = ns_after P (before t (rev (c_lin c))) g0.
+
+Inductive cphase (c : config) (t : N) : list op -> Prop :=
+| ChPre p pre : Q t = Some p -> Forall prelock pre -> ~ In t (c_lin c) -> t_err (c_thr c t) = false ->
+    cphase c t (pre ++ [ORdGlobalC; OUnlockR; ORdModKeys; OCheck p])
+| ChPost p mid : Q t = Some p -> Forall postop mid -> snap_ok c t -> t_err (c_thr c t) = false ->
+    cphase c t (mid ++ [OCheck p])
+| ChDone p : Q t = Some p -> snap_ok c t ->
+    t_err (c_thr c t) = is_none (compile t 0 (t_snap (c_thr c t)) p) ->
+    cphase c t []
+| ChOther ops : Q t = None -> Forall nocheck ops -> t_err (c_thr c t) = false -> cphase c t ops.
+
+Definition Inv7 (c : config) : Prop :=
+  (forall t, cphase c t (t_ops (c_thr c t)))
+  /\ c_commits c = filter (fun t => is_some (P t)) (c_lin c)
+  /\ NoDup (c_lin c)
+  /\ (forall t, In t (c_lin c) -> P t <> None \/ Q t <> None).
+
+Lemma snap_ok_frame c c' u x :
+  snap_ok c u -> (c_lin c' = c_lin c \/ c_lin c' = x :: c_lin c) ->
+  t_snap (c_thr c' u) = t_snap (c_thr c u) -> snap_ok c' u.
+Proof.
+  intros [Hin Hs] [E|E] Ht; unfold snap_ok; rewrite E, Ht.
+  - split; assumption.
+  - split; [right; exact Hin|]. simpl. rewrite before_app_in by (apply -> in_rev; exact Hin). exact Hs.
+Qed.
+
+Lemma cphase_frame c c' u x ops :
+  cphase c u ops -> (c_lin c' = c_lin c \/ (c_lin c' = x :: c_lin c /\ x <> u)) ->
+  c_thr c' u = c_thr c u -> cphase c' u ops.
+Proof.
+  intros Hph Hl Ht.
+  assert (Hl' : c_lin c' = c_lin c \/ c_lin c' = x :: c_lin c) by (destruct Hl as [E|[E _]]; auto).
+  destruct Hph as [p pre Hq Hpre Hn He|p mid Hq Hmid Hs He|p Hq Hs He|ops Hq Hn He].
+  - apply ChPre; auto; [|rewrite Ht; exact He].
+    destruct Hl as [E|[E Hx]]; rewrite E; [exact Hn|]. intros [H|H]; [congruence|exact (Hn H)].
+  - apply ChPost; auto; [|rewrite Ht; exact He]. eapply snap_ok_frame; eauto. rewrite Ht; reflexivity.
+  - eapply ChDone; eauto; [eapply snap_ok_frame; eauto; rewrite Ht; reflexivity|]. rewrite Ht. exact He.
+  - apply ChOther; auto. rewrite Ht. exact He.
+Qed.
+
+(* a step of a thread that is not a Check keeps it so *)
+Lemma step_other c t c' o r :
+  step_opt c t = Some c' -> t_ops (c_thr c t) = o :: r ->
+  nocheck o -> (forall p, o = OCompile p -> static_ok [] p = true) -> Forall nocheck r ->
+  Forall nocheck (t_ops (c_thr c' t)) /\ t_err (c_thr c' t) = t_err (c_thr c t).
+Proof.
+  unfold step_opt. intros Hs Hops Hn Hc Hr. rewrite Hops in Hs.
+  destruct o; simpl in Hn; try contradiction;
+    try (destruct (compile_self_contained t p (t_snap (c_thr c t)) (Hc p eq_refl)) as (g' & fr & Hcc);
+         rewrite Hcc in Hs; inv_some; simpl; rewrite upd_same; simpl; split; [|reflexivity];
+         constructor; [exact I|constructor; [exact I|]]; apply plain_nocheck; eapply compile_plain; eauto);
+    repeat match type of Hs with
+           | context [match ?x with _ => _ end] => destruct x eqn:?; try discriminate
+           end;
+    inv_some; simpl; rewrite upd_same; simpl; (split; [|reflexivity]);
+    try exact Hr; constructor; [exact I|exact Hr].
+Qed.
+
+Lemma step_Inv7 c t : Inv3 P g0 c -> Inv4 c -> Inv7 c -> Inv7 (step c t).
+Proof.
+  intros (Hph3 & Hg3 & Hnd3 & _) (Hown & _) (Hcp & Hcm & Hnd & Hpq). unfold step.
+  destruct (step_opt c t) as [c'|] eqn:Hs; [|repeat split; assumption].
+  destruct (step_lin c t c' Hs) as (o & r & Hops & Hlin & Hthr).
+  destruct (step_shared c t c' Hs) as (_ & _ & Hsh).
+  pose proof (Hcp t) as Ht. rewrite Hops in Ht.
+  (* the other threads *)
+  assert (Hothers : forall u, u <> t -> cphase c' u (t_ops (c_thr c' u))).
+  { intros u Hne. rewrite (Hthr u Hne). apply (cphase_frame c c' u t); [apply Hcp| |apply Hthr; exact Hne].
+    rewrite Hlin. destruct o; auto. }
+  (* the current namespace is the one produced by the whole order so far *)
+  assert (Hglob : c_global c = ns_after P (rev (c_lin c)) g0).
+  { rewrite Hg3, Hcm, <- filter_rev_N. apply ns_after_filter. }
+  (* the head operation decides *)
+  assert (Hcases :
+    (* ordinary operation *)
+    (nocheck o /\ (forall g fr, o <> OWrGlobal g fr)) \/ (exists g fr, o = OWrGlobal g fr) \/ ~ nocheck o)
+    by (destruct o; simpl; auto; try (left; split; [exact I|intros; discriminate]); right; left; eauto).
+  destruct Hcases as [[Hno Hnw]|[(g & fr & ->)|Hck]].
+  - (* lin and commits unchanged *)
+    assert (El : c_lin c' = c_lin c) by (rewrite Hlin; destruct o; try reflexivity; [exfalso; eapply Hnw; eauto|contradiction]).
+    assert (Ec : c_commits c' = c_commits c).
+    { destruct Hsh as [[_ E]|(g & fr & r' & E & _)]; [exact E|]. rewrite Hops in E. inversion E; subst. exfalso; eapply Hnw; eauto. }
+    split; [|rewrite El, Ec; repeat split; assumption].
+    intros u. destruct (N.eq_dec u t) as [->|Hne]; [|apply Hothers; exact Hne].
+    (* thread t: by its phase *)
+    inversion Ht as [p pre Hq Hpre Hn He Hl|p mid Hq Hmid Hso He Hl|p Hq Hso He Hl|ops Hq Hnc He Hl].
+    + (* before the snapshot: the head is OLockR or ORdBuiltin *)
+      destruct pre as [|o' pre']; simpl in Hl; inversion Hl; subst; [simpl in Hno; contradiction|].
+      apply Forall_cons_iff in Hpre as [Ho' Hpre'].
+      unfold step_opt in Hs. rewrite Hops in Hs.
+      destruct o; simpl in Ho'; try contradiction.
+      * destruct (c_w c); [discriminate|]. inv_some. simpl. rewrite upd_same. simpl.
+        apply ChPre; auto. simpl. rewrite upd_same. exact He.
+      * inv_some. simpl. rewrite upd_same. simpl.
+        apply ChPre; auto. simpl. rewrite upd_same. exact He.
+    + (* after the snapshot *)
+      destruct mid as [|o' mid']; simpl in Hl; inversion Hl; subst.
+      * (* OCheck *)
+        unfold step_opt in Hs. rewrite Hops in Hs.
+        destruct (compile t 0 (t_snap (c_thr c t)) p) eqn:Hc; inv_some; simpl; rewrite upd_same; simpl.
+        -- eapply (ChDone _ t p); auto.
+           ++ eapply (snap_ok_frame c _ t t); eauto. simpl. rewrite upd_same. reflexivity.
+           ++ simpl. rewrite upd_same. simpl. rewrite Hc. exact He.
+        -- eapply (ChDone _ t p); auto.
+           ++ eapply (snap_ok_frame c _ t t); eauto. simpl. rewrite upd_same. reflexivity.
+           ++ simpl. rewrite upd_same. simpl. rewrite Hc. reflexivity.
+      * apply Forall_cons_iff in Hmid as [Ho' Hmid'].
+        unfold step_opt in Hs. rewrite Hops in Hs.
+        destruct o; simpl in Ho'; try contradiction; inv_some; simpl; rewrite upd_same; simpl.
+        -- apply ChPost; auto; [eapply (snap_ok_frame c _ t t); eauto; simpl; rewrite upd_same; reflexivity|].
+           simpl. rewrite upd_same. exact He.
+        -- apply ChPost; auto; [eapply (snap_ok_frame c _ t t); eauto; simpl; rewrite upd_same; reflexivity|].
+           simpl. rewrite upd_same. exact He.
+    + (* not a Check *)
+      subst ops. apply Forall_cons_iff in Hnc as [_ Hr].
+      destruct (step_other c t c' o r Hs Hops Hno) as [Hn' He']; [|exact Hr|].
+      { intros p0 ->. pose proof (Hown t) as Hw. rewrite Hops in Hw.
+        apply Forall_cons_iff in Hw as [Hw _]. exact Hw. }
+      apply ChOther; auto. rewrite He'. exact He.
+  - (* OWrGlobal: an evaluation commits *)
+    assert (Hp : exists p, P t = Some p /\ ~ In t (c_commits c)).
+    { pose proof (Hph3 t) as H3. rewrite Hops in H3.
+      inversion H3 as [| | | |p g1 f1 xs Hl Hp Hn _|ops Hq]; subst; [eauto|].
+      apply Forall_cons_iff in Hq as [Hq _]. destruct Hq. }
+    destruct Hp as (p & Hp & Hnc).
+    assert (El : c_lin c' = t :: c_lin c) by (rewrite Hlin; reflexivity).
+    assert (Ec : c_commits c' = t :: c_commits c).
+    { destruct Hsh as [[_ E]|(g1 & f1 & r' & _ & _ & E)]; [|exact E].
+      unfold step_opt in Hs. rewrite Hops in Hs. inv_some. reflexivity. }
+    assert (Hnl : ~ In t (c_lin c)).
+    { intros Hin. apply Hnc. rewrite Hcm. apply filter_In. split; [exact Hin|]. rewrite Hp. reflexivity. }
+    split; [|split; [|split]].
+    + intros u. destruct (N.eq_dec u t) as [->|Hne]; [|apply Hothers; exact Hne].
+      inversion Ht as [p' pre Hq Hpre Hn He Hl|p' mid Hq Hmid Hso He Hl|p' Hq Hso He Hl|ops Hq Hnc' He Hl].
+      * destruct pre as [|o' pre']; simpl in Hl; inversion Hl; subst.
+        apply Forall_cons_iff in Hpre as [Ho' _]. destruct Ho'.
+      * destruct mid as [|o' mid']; simpl in Hl; inversion Hl; subst.
+        apply Forall_cons_iff in Hmid as [Ho' _]. destruct Ho'.
+      * subst ops. apply Forall_cons_iff in Hnc' as [_ Hr].
+        destruct (step_other c t c' _ r Hs Hops I) as [Hn' He']; [intros; discriminate|exact Hr|].
+        apply ChOther; auto. rewrite He'. exact He.
+    + rewrite El, Ec. simpl. rewrite Hp. simpl. f_equal. exact Hcm.
+    + rewrite El. constructor; assumption.
+    + rewrite El. intros u [<-|Hin]; [left; congruence|apply Hpq; exact Hin].
+  - (* OCheck or ORdGlobalC: thread t is a Check *)
+    inversion Ht as [p pre Hq Hpre Hn He Hl|p mid Hq Hmid Hso He Hl|p Hq Hso He Hl|ops Hq Hnc He Hl].
+    + destruct pre as [|o' pre']; simpl in Hl.
+      2:{ inversion Hl as [[E1 E2]]. apply Forall_cons_iff in Hpre as [Ho' _]. rewrite E1 in Ho'.
+          exfalso. apply Hck. destruct o; simpl in Ho'; try contradiction; exact I. }
+      inversion Hl; subst.
+      (* the snapshot *)
+      assert (El : c_lin c' = t :: c_lin c) by (rewrite Hlin; reflexivity).
+      assert (Ec : c_commits c' = c_commits c).
+      { destruct Hsh as [[_ E]|(g & fr & r' & E & _)]; [exact E|]. rewrite Hops in E. discriminate. }
+      assert (Hpt : P t = None) by (apply PQ; congruence).
+      split; [|split; [|split]].
+      * intros u. destruct (N.eq_dec u t) as [->|Hne]; [|apply Hothers; exact Hne].
+        unfold step_opt in Hs. rewrite Hops in Hs. inv_some. simpl. rewrite upd_same. simpl.
+        apply (ChPost _ t p [OUnlockR; ORdModKeys]); auto.
+        -- repeat constructor.
+        -- split; [left; reflexivity|]. simpl. rewrite upd_same. simpl.
+           rewrite before_app_notin by (intros Hin; apply Hn; apply in_rev; exact Hin). exact Hglob.
+        -- simpl. rewrite upd_same. exact He.
+      * rewrite El, Ec. simpl. rewrite Hpt. simpl. exact Hcm.
+      * rewrite El. constructor; assumption.
+      * rewrite El. intros u [<-|Hin]; [right; congruence|apply Hpq; exact Hin].
+    + (* OCheck at the head of mid ++ [OCheck p] *)
+      destruct mid as [|o' mid']; simpl in Hl.
+      2:{ inversion Hl as [[E1 E2]]. apply Forall_cons_iff in Hmid as [Ho' _]. rewrite E1 in Ho'.
+          exfalso. apply Hck. destruct o; simpl in Ho'; try contradiction; exact I. }
+      inversion Hl; subst.
+      assert (El : c_lin c' = c_lin c) by (rewrite Hlin; reflexivity).
+      assert (Ec : c_commits c' = c_commits c).
+      { destruct Hsh as [[_ E]|(g & fr & r' & E & _)]; [exact E|]. rewrite Hops in E. discriminate. }
+      split; [|rewrite El, Ec; repeat split; assumption].
+      intros u. destruct (N.eq_dec u t) as [->|Hne]; [|apply Hothers; exact Hne].
+      unfold step_opt in Hs. rewrite Hops in Hs.
+      destruct (compile t 0 (t_snap (c_thr c t)) p) eqn:Hc; inv_some; simpl; rewrite upd_same; simpl.
+      * eapply (ChDone _ t p); auto.
+        -- eapply (snap_ok_frame c _ t t); eauto. simpl. rewrite upd_same. reflexivity.
+        -- simpl. rewrite upd_same. simpl. rewrite Hc. exact He.
+      * eapply (ChDone _ t p); auto.
+        -- eapply (snap_ok_frame c _ t t); eauto. simpl. rewrite upd_same. reflexivity.
+        -- simpl. rewrite upd_same. simpl. rewrite Hc. reflexivity.
+    + subst ops. apply Forall_cons_iff in Hnc as [Hno _]. contradiction.
+Qed.
+
+(* a finished thread: a Check has taken its snapshot and reports exactly
+   whether its program compiles against it; any other thread has no error *)
+Lemma cphase_done c t :
+  cphase c t [] ->
+  (exists p, Q t = Some p /\ snap_ok c t
+             /\ t_err (c_thr c t) = is_none (compile t 0 (t_snap (c_thr c t)) p))
+  \/ (Q t = None /\ t_err (c_thr c t) = false).
+Proof.
+  intros H. inversion H as [p pre Hq Hpre Hn He Hl|p mid Hq Hmid Hso He Hl|p Hq Hso He|ops Hq Hnc He].
+  - destruct pre; discriminate.
+  - destruct mid; discriminate.
+  - left; eauto.
+  - right; auto.
+Qed.
+
+End Checks.
+(* ------------------------------------------------------------------ *)
 (* 4. a thread running alone from the start of Eval finishes and commits *)
 
 Fixpoint mu (ops : list op) : nat :=
@@ -243,10 +498,10 @@ Lemma run_plain_alone : forall n c t,
   Forall plain_op (t_ops (c_thr c t)) -> (mu (t_ops (c_thr c t)) <= n)%nat ->
   let c' := run (repeatN t n) c in
   t_ops (c_thr c' t) = [] /\ c_w c' = c_w c /\ c_r c' = c_r c /\ c_commits c' = c_commits c
-  /\ (forall u, u <> t -> c_thr c' u = c_thr c u).
+  /\ (forall u, u <> t -> c_thr c' u = c_thr c u) /\ c_lin c' = c_lin c.
 Proof.
   induction n as [|n IH]; intros c t Hpl Hmu; simpl.
-  - destruct (t_ops (c_thr c t)) as [|o r] eqn:Hops; [auto 6|].
+  - destruct (t_ops (c_thr c t)) as [|o r] eqn:Hops; [auto 7|].
     destruct o; simpl in Hmu; lia.
   - destruct (t_ops (c_thr c t)) as [|o r] eqn:Hops.
     + assert (E : step c t = c) by (unfold step, step_opt; rewrite Hops; reflexivity).
@@ -255,29 +510,30 @@ Proof.
       assert (Hnext : forall c1 ops1,
                 step c t = c1 -> t_ops (c_thr c1 t) = ops1 -> Forall plain_op ops1 ->
                 (mu ops1 <= n)%nat -> c_w c1 = c_w c -> c_r c1 = c_r c ->
-                c_commits c1 = c_commits c -> (forall u, u <> t -> c_thr c1 u = c_thr c u) ->
+                c_commits c1 = c_commits c -> c_lin c1 = c_lin c -> (forall u, u <> t -> c_thr c1 u = c_thr c u) ->
                 let c' := run (repeatN t n) (step c t) in
                 t_ops (c_thr c' t) = [] /\ c_w c' = c_w c /\ c_r c' = c_r c
-                /\ c_commits c' = c_commits c /\ (forall u, u <> t -> c_thr c' u = c_thr c u)).
-      { intros c1 ops1 E1 E2 Hp1 Hm1 Hw1 Hr1 Hc1 Ho1. rewrite E1.
-        destruct (IH c1 t) as (A & B & C & D & E); [rewrite E2; exact Hp1|rewrite E2; exact Hm1|].
+                /\ c_commits c' = c_commits c /\ (forall u, u <> t -> c_thr c' u = c_thr c u)
+                /\ c_lin c' = c_lin c).
+      { intros c1 ops1 E1 E2 Hp1 Hm1 Hw1 Hr1 Hc1 Hl1 Ho1. rewrite E1.
+        destruct (IH c1 t) as (A & B & C & D & E & L); [rewrite E2; exact Hp1|rewrite E2; exact Hm1|].
         repeat split; try congruence. intros u Hu. rewrite (E u Hu). apply Ho1; exact Hu. }
       destruct o; simpl in Ho; try contradiction.
       * eapply Hnext; [unfold step, step_opt; rewrite Hops; reflexivity|simpl; rewrite upd_same; reflexivity
-                       |exact Hr|simpl in Hmu |- *; lia|reflexivity|reflexivity|reflexivity|].
+                       |exact Hr|simpl in Hmu |- *; lia|reflexivity|reflexivity|reflexivity|reflexivity|].
         intros u Hu. simpl. apply upd_other; exact Hu.
       * eapply Hnext; [unfold step, step_opt; rewrite Hops; reflexivity|simpl; rewrite upd_same; reflexivity
-                       |exact Hr|simpl in Hmu |- *; lia|reflexivity|reflexivity|reflexivity|].
+                       |exact Hr|simpl in Hmu |- *; lia|reflexivity|reflexivity|reflexivity|reflexivity|].
         intros u Hu. simpl. apply upd_other; exact Hu.
       * destruct (memN m (c_mods c)) eqn:Hm.
         -- eapply Hnext; [unfold step, step_opt; rewrite Hops, Hm; reflexivity|simpl; rewrite upd_same; reflexivity
-                          |exact Hr|simpl in Hmu |- *; lia|reflexivity|reflexivity|reflexivity|].
+                          |exact Hr|simpl in Hmu |- *; lia|reflexivity|reflexivity|reflexivity|reflexivity|].
            intros u Hu. simpl. apply upd_other; exact Hu.
         -- eapply Hnext; [unfold step, step_opt; rewrite Hops, Hm; reflexivity|simpl; rewrite upd_same; reflexivity
-                          |constructor; [exact I|exact Hr]|simpl in Hmu |- *; lia|reflexivity|reflexivity|reflexivity|].
+                          |constructor; [exact I|exact Hr]|simpl in Hmu |- *; lia|reflexivity|reflexivity|reflexivity|reflexivity|].
            intros u Hu. simpl. apply upd_other; exact Hu.
       * eapply Hnext; [unfold step, step_opt; rewrite Hops; reflexivity|simpl; rewrite upd_same; reflexivity
-                       |exact Hr|simpl in Hmu |- *; lia|reflexivity|reflexivity|reflexivity|].
+                       |exact Hr|simpl in Hmu |- *; lia|reflexivity|reflexivity|reflexivity|reflexivity|].
         intros u Hu. simpl. apply upd_other; exact Hu.
 Qed.
 
@@ -291,7 +547,8 @@ Lemma solo_eval c t p n :
   c_w c = None -> c_r c = [] -> (6 + 2 * length p <= n)%nat ->
   let c' := run (repeatN t n) c in
   t_ops (c_thr c' t) = [] /\ c_w c' = None /\ c_r c' = []
-  /\ (forall u, u <> t -> c_thr c' u = c_thr c u) /\ c_commits c' = t :: c_commits c.
+  /\ (forall u, u <> t -> c_thr c' u = c_thr c u) /\ c_commits c' = t :: c_commits c
+  /\ c_lin c' = t :: c_lin c.
 Proof.
   intros Hops Hs Hw Hr Hn.
   destruct (compile_self_contained t p (c_global c) Hs) as (g' & fr & Hc).
@@ -301,82 +558,152 @@ Proof.
   set (c1 := step c t).
   assert (F1 : t_ops (c_thr c1 t) = [ORdBuiltin; ORdGlobal; OCompile p] /\ c_w c1 = Some t /\ c_r c1 = []
                /\ c_commits c1 = c_commits c /\ c_global c1 = c_global c
-               /\ (forall u, u <> t -> c_thr c1 u = c_thr c u)).
+               /\ (forall u, u <> t -> c_thr c1 u = c_thr c u) /\ c_lin c1 = c_lin c).
   { unfold c1, step, step_opt. rewrite Hops. unfold start_ops. rewrite Hw, Hr. simpl. rewrite upd_same.
     repeat split; auto. intros; apply upd_other; assumption. }
-  clearbody c1. destruct F1 as (O1 & W1 & R1 & C1 & G1 & U1).
+  clearbody c1. destruct F1 as (O1 & W1 & R1 & C1 & G1 & U1 & L1).
   (* 2: read ev.builtin *)
   set (c2 := step c1 t).
   assert (F2 : t_ops (c_thr c2 t) = [ORdGlobal; OCompile p] /\ c_w c2 = Some t /\ c_r c2 = []
                /\ c_commits c2 = c_commits c /\ c_global c2 = c_global c
-               /\ (forall u, u <> t -> c_thr c2 u = c_thr c u)).
+               /\ (forall u, u <> t -> c_thr c2 u = c_thr c u) /\ c_lin c2 = c_lin c).
   { unfold c2, step, step_opt. rewrite O1. simpl. rewrite upd_same.
     repeat split; auto. intros u Hu. rewrite upd_other by exact Hu. apply U1; exact Hu. }
-  clearbody c2. destruct F2 as (O2 & W2 & R2 & C2 & G2 & U2).
+  clearbody c2. destruct F2 as (O2 & W2 & R2 & C2 & G2 & U2 & L2).
   (* 3: read ev.global *)
   set (c3 := step c2 t).
   assert (F3 : t_ops (c_thr c3 t) = [OCompile p] /\ t_snap (c_thr c3 t) = c_global c
                /\ c_w c3 = Some t /\ c_r c3 = []
                /\ c_commits c3 = c_commits c
-               /\ (forall u, u <> t -> c_thr c3 u = c_thr c u)).
+               /\ (forall u, u <> t -> c_thr c3 u = c_thr c u) /\ c_lin c3 = c_lin c).
   { unfold c3, step, step_opt. rewrite O2. simpl. rewrite upd_same. simpl.
     repeat split; auto. intros u Hu. rewrite upd_other by exact Hu. apply U2; exact Hu. }
-  clearbody c3. destruct F3 as (O3 & S3 & W3 & R3 & C3 & U3).
+  clearbody c3. destruct F3 as (O3 & S3 & W3 & R3 & C3 & U3 & L3).
   (* 4: compile *)
   set (c4 := step c3 t).
   assert (F4 : t_ops (c_thr c4 t) = OWrGlobal g' fr :: OUnlockW :: own_xs t p
                /\ c_w c4 = Some t /\ c_r c4 = [] /\ c_commits c4 = c_commits c
-               /\ (forall u, u <> t -> c_thr c4 u = c_thr c u)).
+               /\ (forall u, u <> t -> c_thr c4 u = c_thr c u) /\ c_lin c4 = c_lin c).
   { unfold c4, step, step_opt. rewrite O3, S3, Hc. simpl. rewrite upd_same. simpl.
     repeat split; auto. intros u Hu. rewrite upd_other by exact Hu. apply U3; exact Hu. }
-  clearbody c4. destruct F4 as (O4 & W4 & R4 & C4 & U4).
+  clearbody c4. destruct F4 as (O4 & W4 & R4 & C4 & U4 & L4).
   (* 5: replace ev.global *)
   set (c5 := step c4 t).
   assert (F5 : t_ops (c_thr c5 t) = OUnlockW :: own_xs t p
                /\ c_w c5 = Some t /\ c_r c5 = [] /\ c_commits c5 = t :: c_commits c
-               /\ (forall u, u <> t -> c_thr c5 u = c_thr c u)).
+               /\ (forall u, u <> t -> c_thr c5 u = c_thr c u) /\ c_lin c5 = t :: c_lin c).
   { unfold c5, step, step_opt. rewrite O4. simpl. rewrite upd_same. simpl.
     repeat split; auto; try congruence. intros u Hu. rewrite upd_other by exact Hu. apply U4; exact Hu. }
-  clearbody c5. destruct F5 as (O5 & W5 & R5 & C5 & U5).
+  clearbody c5. destruct F5 as (O5 & W5 & R5 & C5 & U5 & L5).
   (* 6: unlock *)
   set (c6 := step c5 t).
   assert (F6 : t_ops (c_thr c6 t) = own_xs t p
                /\ c_w c6 = None /\ c_r c6 = [] /\ c_commits c6 = t :: c_commits c
-               /\ (forall u, u <> t -> c_thr c6 u = c_thr c u)).
+               /\ (forall u, u <> t -> c_thr c6 u = c_thr c u) /\ c_lin c6 = t :: c_lin c).
   { unfold c6, step, step_opt. rewrite O5, W5, N.eqb_refl. simpl. rewrite upd_same. simpl.
     repeat split; auto. intros u Hu. rewrite upd_other by exact Hu. apply U5; exact Hu. }
-  clearbody c6. destruct F6 as (O6 & W6 & R6 & C6 & U6).
+  clearbody c6. destruct F6 as (O6 & W6 & R6 & C6 & U6 & L6).
   (* the rest: plain operations *)
   assert (Hlen : length (own_xs t p) = length p) by (eapply compile_length; eauto).
-  destruct (run_plain_alone n c6 t) as (A & B & C & D & E).
+  destruct (run_plain_alone n c6 t) as (A & B & C & D & E & L).
   { rewrite O6. eapply compile_plain; eauto. }
   { rewrite O6. pose proof (mu_le (own_xs t p)). simpl in Hn. lia. }
   repeat split; try congruence. intros u Hu. rewrite (E u Hu). apply U6; exact Hu.
 Qed.
 
+Definition check_ops (p : list stmt) : list op :=
+  [OLockR; ORdBuiltin; ORdGlobalC; OUnlockR; ORdModKeys; OCheck p].
+
+(* a Check running alone finishes, taking its snapshot of the current namespace *)
+Lemma solo_check c t p n :
+  t_ops (c_thr c t) = check_ops p -> c_w c = None -> c_r c = [] -> (6 <= n)%nat ->
+  let c' := run (repeatN t n) c in
+  t_ops (c_thr c' t) = [] /\ c_w c' = None /\ c_r c' = []
+  /\ (forall u, u <> t -> c_thr c' u = c_thr c u) /\ c_commits c' = c_commits c
+  /\ c_lin c' = t :: c_lin c.
+Proof.
+  intros Hops Hw Hr Hn.
+  do 6 (destruct n as [|n]; [lia|]).
+  cbn [repeatN]. rewrite !run_cons.
+  set (c1 := step c t).
+  assert (F1 : t_ops (c_thr c1 t) = [ORdBuiltin; ORdGlobalC; OUnlockR; ORdModKeys; OCheck p]
+               /\ c_w c1 = None /\ c_r c1 = [t] /\ c_commits c1 = c_commits c
+               /\ (forall u, u <> t -> c_thr c1 u = c_thr c u) /\ c_lin c1 = c_lin c).
+  { unfold c1, step, step_opt. rewrite Hops. unfold check_ops. rewrite Hw. simpl. rewrite upd_same, Hr.
+    repeat split; auto. intros; apply upd_other; assumption. }
+  clearbody c1. destruct F1 as (O1 & W1 & R1 & C1 & U1 & L1).
+  set (c2 := step c1 t).
+  assert (F2 : t_ops (c_thr c2 t) = [ORdGlobalC; OUnlockR; ORdModKeys; OCheck p]
+               /\ c_w c2 = None /\ c_r c2 = [t] /\ c_commits c2 = c_commits c
+               /\ (forall u, u <> t -> c_thr c2 u = c_thr c u) /\ c_lin c2 = c_lin c).
+  { unfold c2, step, step_opt. rewrite O1. simpl. rewrite upd_same.
+    repeat split; auto. intros u Hu. rewrite upd_other by exact Hu. apply U1; exact Hu. }
+  clearbody c2. destruct F2 as (O2 & W2 & R2 & C2 & U2 & L2).
+  set (c3 := step c2 t).
+  assert (F3 : t_ops (c_thr c3 t) = [OUnlockR; ORdModKeys; OCheck p]
+               /\ c_w c3 = None /\ c_r c3 = [t] /\ c_commits c3 = c_commits c
+               /\ (forall u, u <> t -> c_thr c3 u = c_thr c u) /\ c_lin c3 = t :: c_lin c).
+  { unfold c3, step, step_opt. rewrite O2. simpl. rewrite upd_same. simpl.
+    repeat split; auto; try congruence. intros u Hu. rewrite upd_other by exact Hu. apply U2; exact Hu. }
+  clearbody c3. destruct F3 as (O3 & W3 & R3 & C3 & U3 & L3).
+  set (c4 := step c3 t).
+  assert (F4 : t_ops (c_thr c4 t) = [ORdModKeys; OCheck p]
+               /\ c_w c4 = None /\ c_r c4 = [] /\ c_commits c4 = c_commits c
+               /\ (forall u, u <> t -> c_thr c4 u = c_thr c u) /\ c_lin c4 = t :: c_lin c).
+  { unfold c4, step, step_opt. rewrite O3. simpl. rewrite upd_same, R3. simpl. rewrite N.eqb_refl.
+    repeat split; auto. intros u Hu. rewrite upd_other by exact Hu. apply U3; exact Hu. }
+  clearbody c4. destruct F4 as (O4 & W4 & R4 & C4 & U4 & L4).
+  set (c5 := step c4 t).
+  assert (F5 : t_ops (c_thr c5 t) = [OCheck p]
+               /\ c_w c5 = None /\ c_r c5 = [] /\ c_commits c5 = c_commits c
+               /\ (forall u, u <> t -> c_thr c5 u = c_thr c u) /\ c_lin c5 = t :: c_lin c).
+  { unfold c5, step, step_opt. rewrite O4. simpl. rewrite upd_same.
+    repeat split; auto. intros u Hu. rewrite upd_other by exact Hu. apply U4; exact Hu. }
+  clearbody c5. destruct F5 as (O5 & W5 & R5 & C5 & U5 & L5).
+  set (c6 := step c5 t).
+  assert (F6 : t_ops (c_thr c6 t) = []
+               /\ c_w c6 = None /\ c_r c6 = [] /\ c_commits c6 = c_commits c
+               /\ (forall u, u <> t -> c_thr c6 u = c_thr c u) /\ c_lin c6 = t :: c_lin c).
+  { unfold c6, step, step_opt. rewrite O5.
+    destruct (compile t 0 (t_snap (c_thr c5 t)) p); simpl; rewrite upd_same;
+      (repeat split; auto; intros u Hu; rewrite upd_other by exact Hu; apply U5; exact Hu). }
+  clearbody c6. destruct F6 as (O6 & W6 & R6 & C6 & U6 & L6).
+  destruct (run_plain_alone n c6 t) as (A & B & C & D & E & L).
+  { rewrite O6. constructor. }
+  { rewrite O6. simpl. lia. }
+  repeat split; try congruence. intros u Hu. rewrite (E u Hu). apply U6; exact Hu.
+Qed.
+
 Definition blocks (F : nat) (order : list N) : list N := flat_map (fun t => repeatN t F) order.
 
+(* the serial schedule: every thread of [order] alone in one block *)
 Lemma serial_run F : forall order c,
   NoDup order ->
-  (forall t, In t order -> exists p, t_ops (c_thr c t) = start_ops p /\ static_ok [] p = true
-                                     /\ (6 + 2 * length p <= F)%nat) ->
+  (forall t, In t order ->
+     (exists p, t_ops (c_thr c t) = start_ops p /\ static_ok [] p = true /\ (6 + 2 * length p <= F)%nat)
+     \/ (exists p, t_ops (c_thr c t) = check_ops p /\ (6 <= F)%nat)) ->
   c_w c = None -> c_r c = [] ->
   let c' := run (blocks F order) c in
   (forall t, In t order -> t_ops (c_thr c' t) = [])
-  /\ c_commits c' = rev order ++ c_commits c
+  /\ c_lin c' = rev order ++ c_lin c
   /\ (forall u, ~ In u order -> c_thr c' u = c_thr c u)
   /\ c_w c' = None /\ c_r c' = [].
 Proof.
   induction order as [|t rest IH]; intros c Hnd Hst Hw Hr; simpl.
   - repeat split; auto. intros t [].
   - inversion Hnd as [|? ? Hnin Hnd']; subst.
-    destruct (Hst t (or_introl eq_refl)) as (p & Hops & Hs & Hf).
     rewrite run_app.
-    destruct (solo_eval c t p F Hops Hs Hw Hr Hf) as (A & B & C & D & E).
+    assert (Hone : let c1 := run (repeatN t F) c in
+              t_ops (c_thr c1 t) = [] /\ c_w c1 = None /\ c_r c1 = []
+              /\ (forall u, u <> t -> c_thr c1 u = c_thr c u) /\ c_lin c1 = t :: c_lin c).
+    { destruct (Hst t (or_introl eq_refl)) as [(p & Hops & Hs & Hf)|(p & Hops & Hf)].
+      - destruct (solo_eval c t p F Hops Hs Hw Hr Hf) as (A & B & C & D & _ & E). auto.
+      - destruct (solo_check c t p F Hops Hw Hr Hf) as (A & B & C & D & _ & E). auto. }
+    destruct Hone as (A & B & C & D & E).
     set (c1 := run (repeatN t F) c) in *. clearbody c1.
     destruct (IH c1 Hnd') as (A' & B' & C' & D' & E'); auto.
-    { intros t' Hin. destruct (Hst t' (or_intror Hin)) as (p' & Hops' & Hs' & Hf').
-      exists p'. repeat split; auto. rewrite D; [exact Hops'|]. intros ->. contradiction. }
+    { intros t' Hin. assert (Hne : t' <> t) by (intros ->; contradiction).
+      rewrite (D t' Hne). apply Hst. right; exact Hin. }
     repeat split; auto.
     + intros t' [->|Hin]; [|apply A'; exact Hin]. rewrite C' by exact Hnin. exact A.
     + rewrite B', E. rewrite <- app_assoc. reflexivity.
@@ -387,8 +714,9 @@ Qed.
 (* ------------------------------------------------------------------ *)
 (* 5. the theorem *)
 
-Definition eval_jobs (js : list job) : Prop :=
-  forall j, In j js -> exists p, j = JEval p /\ static_ok [] p = true.
+(* self-contained evaluations, and static checks of ANY program *)
+Definition mixed_jobs (js : list job) : Prop :=
+  forall j, In j js -> (exists p, j = JEval p /\ static_ok [] p = true) \/ (exists p, j = JCheck p).
 
 Fixpoint total_len (js : list job) : nat :=
   match js with [] => 0 | j :: r => length (prog_of j) + total_len r end.
@@ -405,8 +733,8 @@ Proof.
   destruct (H i) as [-> ->]. rewrite IH. reflexivity.
 Qed.
 
-Lemma init_thread g0 js t :
-  c_thr (init g0 [] [] js) t =
+Lemma init_thread g0 st0 mods0 js t :
+  c_thr (init g0 st0 mods0 js) t =
   match nth_error js (N.to_nat t) with
   | Some j => mkThread (job_ops g0 j) [] false []
   | None => idle
@@ -417,75 +745,157 @@ Proof.
 Qed.
 
 Lemma serializable_disjoint g0 st0 mods0 js sched :
-  eval_jobs js ->
+  mixed_jobs js ->
   let c0 := init g0 st0 mods0 js in
   let c := run sched c0 in
   (forall t, t_ops (c_thr c t) = []) ->
-  exists order F,
+  (* the serial order is the linearization order: an Eval at the moment it
+     replaced ev.global, a Check at the moment it read its snapshot *)
+  let order := rev (c_lin c) in
+  exists F,
     NoDup order
     /\ (forall t, t_ops (c_thr (run (blocks F order) c0) t) = [])
     /\ obs_of (run (blocks F order) c0) (length js) = obs_of c (length js).
 Proof.
-  intros Hev c0 c Hdone.
-  set (P := eval_prog js).
+  intros Hev c0 c Hdone order.
+  set (P := eval_prog js). set (Q := check_prog js).
+  assert (PQ : forall t, Q t <> None -> P t = None).
+  { intros t. unfold P, Q, eval_prog, check_prog.
+    destruct (nth_error js (N.to_nat t)) as [[p|p|p]|]; congruence. }
   assert (Hthr0 : forall t, c_thr c0 t = match nth_error js (N.to_nat t) with
                                          | Some j => mkThread (job_ops g0 j) [] false []
                                          | None => idle end).
-  { intros t. apply (init_thread g0 js t). }
+  { intros t. apply init_thread. }
   assert (Hdisj : forall j, In j js -> disjoint_job j).
-  { intros j Hin. destruct (Hev j Hin) as (p & -> & Hs). exact Hs. }
+  { intros j Hin. destruct (Hev j Hin) as [(p & -> & Hs)|(p & ->)]; [exact Hs|exact I]. }
   assert (H40 : Inv4 c0) by (apply init_Inv4; exact Hdisj).
-  assert (Hne0 : NoErr c0).
-  { intros t. rewrite Hthr0. destruct (nth_error js (N.to_nat t)); reflexivity. }
   assert (H50 : Inv5 P c0).
   { intros t p Hp Hq. exfalso. rewrite Hthr0 in Hq. unfold P, eval_prog in Hp.
     destruct (nth_error js (N.to_nat t)) as [[p'|p'|p']|]; try discriminate.
     simpl in Hq. notquiet Hq. }
-  assert (Hall : forall s, Inv3 P g0 (run s c0) /\ Inv4 (run s c0) /\ Inv5 P (run s c0)).
-  { intros s. apply (run_invariant (fun x => Inv3 P g0 x /\ Inv4 x /\ Inv5 P x)).
-    - intros x t (A & B & C). split; [apply step_Inv3; exact A|split; [apply step_Inv4; exact B|]].
-      eapply step_Inv5; eauto.
-    - split; [apply init_Inv3|split; assumption]. }
-  destruct (Hall sched) as ((_ & Hg & Hnd & Hcm) & H4 & H5). fold c in Hg, Hnd, Hcm, H4, H5.
-  set (order := rev (c_commits c)).
+  assert (H70 : Inv7 P Q g0 c0).
+  { split; [|split; [reflexivity|split; [constructor|intros t []]]].
+    intros t. rewrite Hthr0. unfold Q, check_prog.
+    destruct (nth_error js (N.to_nat t)) as [j|] eqn:Hn; simpl.
+    - destruct j as [p|p|p]; simpl.
+      + apply ChOther; [unfold Q, check_prog; rewrite Hn; reflexivity|repeat constructor|].
+        rewrite Hthr0, Hn. reflexivity.
+      + apply (ChPre P Q g0 c0 t p [OLockR; ORdBuiltin]);
+          [unfold Q, check_prog; rewrite Hn; reflexivity|repeat constructor|intros []|].
+        rewrite Hthr0, Hn. reflexivity.
+      + exfalso. destruct (Hev _ (nth_error_In _ _ Hn)) as [(p' & E & _)|(p' & E)]; discriminate.
+    - apply ChOther; [unfold Q, check_prog; rewrite Hn; reflexivity|constructor|].
+      rewrite Hthr0, Hn. reflexivity. }
+  assert (Hall : forall s, Inv3 P g0 (run s c0) /\ Inv4 (run s c0) /\ Inv5 P (run s c0)
+                           /\ Inv7 P Q g0 (run s c0)).
+  { intros s. apply (run_invariant (fun x => Inv3 P g0 x /\ Inv4 x /\ Inv5 P x /\ Inv7 P Q g0 x)).
+    - intros x t (A & B & C & D). split; [apply step_Inv3; exact A|split; [apply step_Inv4; exact B|split]].
+      + eapply step_Inv5; eauto.
+      + apply (step_Inv7 P Q g0 PQ); assumption.
+    - split; [apply init_Inv3|split; [exact H40|split; [exact H50|exact H70]]]. }
+  destruct (Hall sched) as ((_ & Hg & _ & _) & H4 & H5 & (Hcp & Hcm & Hnd & Hpq)).
+  fold c in Hg, H4, H5, Hcp, Hcm, Hnd, Hpq.
   set (F := (6 + 2 * total_len js)%nat).
-  exists order, F.
+  exists F.
   assert (Hnd' : NoDup order) by (apply NoDup_rev; exact Hnd).
-  (* every committed thread starts at the beginning of Eval *)
+  (* every linearized thread starts at the beginning of its job *)
   assert (Hstart : forall t, In t order ->
-            exists p, t_ops (c_thr c0 t) = start_ops p /\ static_ok [] p = true
-                      /\ (6 + 2 * length p <= F)%nat).
-  { intros t Hin. apply in_rev in Hin. pose proof (Hcm t Hin) as Hp. unfold P, eval_prog in Hp.
-    rewrite Hthr0. destruct (nth_error js (N.to_nat t)) as [[p|p|p]|] eqn:Hn; try congruence.
-    apply nth_error_In in Hn. destruct (Hev _ Hn) as (p' & Heq & Hs). inversion Heq; subst p'.
-    exists p. repeat split; auto. pose proof (total_len_ge js _ Hn). simpl in H. unfold F. lia. }
+     (exists p, t_ops (c_thr c0 t) = start_ops p /\ static_ok [] p = true /\ (6 + 2 * length p <= F)%nat)
+     \/ (exists p, t_ops (c_thr c0 t) = check_ops p /\ (6 <= F)%nat)).
+  { intros t Hin. apply in_rev in Hin. pose proof (Hpq t Hin) as Hp. unfold P, Q, eval_prog, check_prog in Hp.
+    rewrite Hthr0. destruct (nth_error js (N.to_nat t)) as [[p|p|p]|] eqn:Hn.
+    - left. apply nth_error_In in Hn. destruct (Hev _ Hn) as [(p' & Heq & Hs)|(p' & Heq)]; [|discriminate].
+      inversion Heq; subst p'. exists p. repeat split; auto.
+      pose proof (total_len_ge js _ Hn) as Hl. simpl in Hl. unfold F. lia.
+    - right. exists p. split; [reflexivity|unfold F; lia].
+    - destruct Hp as [Hp|Hp]; congruence.
+    - destruct Hp as [Hp|Hp]; congruence. }
   destruct (serial_run F order c0 Hnd' Hstart eq_refl eq_refl) as (A & B & C & _ & _).
   set (cs := run (blocks F order) c0) in *.
+  assert (Hlin : c_lin cs = c_lin c).
+  { rewrite B. simpl. rewrite app_nil_r. unfold order. apply rev_involutive. }
+  destruct (Hall (blocks F order)) as ((_ & Hg_s & _ & _) & _ & _ & (Hcp_s & Hcm_s & _ & _)).
+  fold cs in Hg_s, Hcp_s, Hcm_s.
   (* the serial run is complete *)
   assert (Hdone_s : forall t, t_ops (c_thr cs t) = []).
   { intros t. destruct (in_dec N.eq_dec t order) as [Hin|Hnin]; [apply A; exact Hin|].
     rewrite (C t Hnin), Hthr0.
     destruct (nth_error js (N.to_nat t)) as [j|] eqn:Hn; [|reflexivity].
     exfalso. apply Hnin. apply -> in_rev.
-    destruct (Hev j (nth_error_In _ _ Hn)) as (p & -> & _).
-    apply (H5 t p); [unfold P, eval_prog; rewrite Hn; reflexivity|rewrite Hdone; constructor]. }
+    destruct (Hev j (nth_error_In _ _ Hn)) as [(p & -> & _)|(p & ->)].
+    - assert (Hc : In t (c_commits c)).
+      { apply (H5 t p); [unfold P, eval_prog; rewrite Hn; reflexivity|rewrite Hdone; constructor]. }
+      rewrite Hcm in Hc. apply filter_In in Hc. apply Hc.
+    - pose proof (Hcp t) as Ht. rewrite Hdone in Ht.
+      destruct (cphase_done P Q g0 c t Ht) as [(p' & _ & [Hin _] & _)|[Hq _]]; [exact Hin|].
+      unfold Q, check_prog in Hq. rewrite Hn in Hq. discriminate. }
   split; [exact Hnd'|split; [exact Hdone_s|]].
-  (* same commit order, hence same namespace *)
-  assert (Hcs : c_commits cs = c_commits c).
-  { rewrite B. simpl. rewrite app_nil_r. unfold order. apply rev_involutive. }
-  destruct (Hall (blocks F order)) as ((_ & Hg_s & _ & _) & _ & _). fold cs in Hg_s.
-  assert (Hglob : c_global cs = c_global c) by (rewrite Hg_s, Hg, Hcs; reflexivity).
+  (* same linearization, hence same namespace *)
+  assert (Hglob : c_global cs = c_global c) by (rewrite Hg_s, Hg, Hcm_s, Hcm, Hlin; reflexivity).
   (* same private computations *)
-  destruct (run_G sched c0 H40 Hne0) as [HG Hne]. fold c in HG, Hne.
-  destruct (run_G (blocks F order) c0 H40 Hne0) as [HGs Hnes]. fold cs in HGs, Hnes.
   assert (Hpriv : forall u, mine u (c_store cs) = mine u (c_store c)
                             /\ t_outs (c_thr cs u) = t_outs (c_thr c u)).
-  { intros u. pose proof (HG u) as E1. pose proof (HGs u) as E2.
+  { intros u. pose proof (run_G sched c0 H40 u) as E1. pose proof (run_G (blocks F order) c0 H40 u) as E2.
+    fold c in E1. fold cs in E2.
     unfold G in E1, E2. rewrite Hdone in E1. rewrite Hdone_s in E2. simpl in E1, E2.
     rewrite <- E2 in E1. inversion E1. auto. }
+  (* same verdict of every Check: it compiled against the same snapshot *)
+  assert (Herr : forall t, t_err (c_thr cs t) = t_err (c_thr c t)).
+  { intros t. pose proof (Hcp t) as H1. pose proof (Hcp_s t) as H2.
+    rewrite Hdone in H1. rewrite Hdone_s in H2.
+    destruct (cphase_done P Q g0 c t H1) as [(p & Hq & [_ Hs] & He)|[Hq He]];
+      destruct (cphase_done P Q g0 cs t H2) as [(p' & Hq' & [_ Hs'] & He')|[Hq' He']];
+      congruence. }
   unfold obs_of. f_equal.
   - unfold final_of. rewrite Hglob. apply map_ext. intros [x s]. simpl. f_equal.
     rewrite <- (store_get_mine s (c_store cs)), <- (store_get_mine s (c_store c)).
     destruct (Hpriv (fst s)) as [-> _]. reflexivity.
-  - apply results_of_ext. intros t. split; [rewrite Hnes, Hne; reflexivity|apply Hpriv].
+  - apply results_of_ext. intros t. split; [apply Herr|apply Hpriv].
+Qed.
+
+(* A finished Check reports exactly whether its program compiles against the
+   namespace produced by the evaluations that precede it in the linearization
+   order - in every interleaving. *)
+Lemma check_linearizes g0 st0 mods0 js sched t p :
+  mixed_jobs js ->
+  let c := run sched (init g0 st0 mods0 js) in
+  check_prog js t = Some p -> t_ops (c_thr c t) = [] ->
+  In t (c_lin c)
+  /\ t_snap (c_thr c t) = ns_after (eval_prog js) (before t (rev (c_lin c))) g0
+  /\ t_err (c_thr c t) = is_none (compile t 0 (t_snap (c_thr c t)) p).
+Proof.
+  intros Hev c Hq Hdone.
+  set (c0 := init g0 st0 mods0 js).
+  set (P := eval_prog js). set (Q := check_prog js).
+  assert (PQ : forall t, Q t <> None -> P t = None).
+  { intros u. unfold P, Q, eval_prog, check_prog.
+    destruct (nth_error js (N.to_nat u)) as [[q|q|q]|]; congruence. }
+  assert (Hthr0 : forall t, c_thr c0 t = match nth_error js (N.to_nat t) with
+                                         | Some j => mkThread (job_ops g0 j) [] false []
+                                         | None => idle end).
+  { intros u. apply init_thread. }
+  assert (H40 : Inv4 c0).
+  { apply init_Inv4. intros j Hin. destruct (Hev j Hin) as [(q & -> & Hs)|(q & ->)]; [exact Hs|exact I]. }
+  assert (H70 : Inv7 P Q g0 c0).
+  { split; [|split; [reflexivity|split; [constructor|intros u []]]].
+    intros u. rewrite Hthr0. unfold Q, check_prog.
+    destruct (nth_error js (N.to_nat u)) as [j|] eqn:Hn; simpl.
+    - destruct j as [q|q|q]; simpl.
+      + apply ChOther; [unfold Q, check_prog; rewrite Hn; reflexivity|repeat constructor|].
+        rewrite Hthr0, Hn. reflexivity.
+      + apply (ChPre P Q g0 c0 u q [OLockR; ORdBuiltin]);
+          [unfold Q, check_prog; rewrite Hn; reflexivity|repeat constructor|intros []|].
+        rewrite Hthr0, Hn. reflexivity.
+      + exfalso. destruct (Hev _ (nth_error_In _ _ Hn)) as [(p' & E & _)|(p' & E)]; discriminate.
+    - apply ChOther; [unfold Q, check_prog; rewrite Hn; reflexivity|constructor|].
+      rewrite Hthr0, Hn. reflexivity. }
+  assert (Hall : Inv3 P g0 c /\ Inv4 c /\ Inv7 P Q g0 c).
+  { apply (run_invariant (fun x => Inv3 P g0 x /\ Inv4 x /\ Inv7 P Q g0 x)).
+    - intros x u (A & B & D). split; [apply step_Inv3; exact A|split; [apply step_Inv4; exact B|]].
+      apply (step_Inv7 P Q g0 PQ); assumption.
+    - split; [apply init_Inv3|split; [exact H40|exact H70]]. }
+  destruct Hall as (_ & _ & (Hcp & _)). pose proof (Hcp t) as Ht. rewrite Hdone in Ht.
+  destruct (cphase_done P Q g0 c t Ht) as [(p' & Hq' & [Hin Hs] & He)|[Hq' _]].
+  - assert (p' = p) by (unfold Q in Hq'; congruence). subst p'. auto.
+  - unfold Q in Hq'. congruence.
 Qed.
